@@ -195,14 +195,14 @@ class SectionEval:
         except AnalysisError as e:
             return e
 
-    def _run_reader(self, lines):
+    def _run_reader(self, lines, multi=False):
         cxi = self.cx
 
         def go():
             return cxi.call(cxi.getattr(CX.ClassVal(self.cls), 'from_lines'),
                             [list(lines), 8], {})
-        try:
-            kind, val = self._single(cxi.explore(go), 'from_lines')
+
+        def data_of(kind, val):
             if kind == 'raise':
                 return ('raise', val.tname, val.args_)
             if not isinstance(val, CX.Obj):
@@ -211,8 +211,70 @@ class SectionEval:
             if d is None:
                 return ('type', 'no _data')
             return cxi.items(d)
+        try:
+            paths = cxi.explore(go, max_paths=256 if multi else 64)
+            if multi:
+                out = []
+                for (conds, (kind, val)) in paths:
+                    cons = constraints_of(conds)
+                    if cons is None:
+                        raise CX.CxError(
+                            'from_lines: control flow depends on the '
+                            'contents ({})'.format(conds[0][0][:2]))
+                    out.append((cons, data_of(kind, val)))
+                return ('paths', out)
+            kind, val = self._single(paths, 'from_lines')
+            return data_of(kind, val)
         except AnalysisError as e:
             return e
+
+    def run_reader_prefix(self, nlines):
+        """from_lines on the first nlines reference lines, following tests
+        on single content bits: -> ('paths', [(constraints, bytes)]) | error"""
+        lines = [_to_line_seq(l) for l in self.want_lines[:nlines]]
+        return self._run_reader(lines, multi=True)
+
+    def prefix_check(self, source, skip=(), counts=(1, 2, 3)):
+        """the reader followed through tests on content bits, on the first
+        1, 2 and 3 lines (each path is compared under its own condition; the
+        loop treats every line alike).  source: 'ref' (reference text) or
+        'writer' (the evaluated writer's own lines)
+        -> (True, diff-or-None, note) | (False, None, reason)"""
+        lines = self.want_lines if source == 'ref' else self.writer
+        if not isinstance(lines, list) or not lines:
+            return False, None, 'no lines'
+        per = self.size // len(self.want_lines)
+        npaths = 0
+        try:
+            for n in counts:
+                if n > len(lines):
+                    break
+                ls = [_to_line_seq(l) if source == 'ref' else l
+                      for l in lines[:n]]
+                got = self._run_reader(ls, multi=True)
+                if isinstance(got, AnalysisError):
+                    return False, None, str(got)
+                npaths += len(got[1]) if got[0] == 'paths' else 1
+                d = self.paths_diff(got, n * per, skip)
+                if d is not None:
+                    return True, 'first {} line(s): {}'.format(n, d), ''
+        except AnalysisError as e:
+            return False, None, str(e)
+        return True, None, '{} paths over the first 1-3 lines, each ' \
+            'compared under its path condition'.format(npaths)
+
+    def paths_diff(self, got, nbytes, skip=()):
+        """None when on every path the bytes read equal the first nbytes of
+        the memory under that path's condition"""
+        if isinstance(got, AnalysisError):
+            raise got
+        if got[0] != 'paths':
+            return self.mem_diff(got, skip, nbytes)
+        for (cons, items) in got[1]:
+            d = self.mem_diff(items, skip, nbytes, cons)
+            if d is not None:
+                return d + ' (when {})'.format(describe_constraints(cons))
+        return None
 
     # ---- comparisons -----------------------------------------------------
     def writer_diff(self):
@@ -236,18 +298,20 @@ class SectionEval:
                                              _describe(y)))
         return None
 
-    def mem_diff(self, got, skip=()):
+    def mem_diff(self, got, skip=(), nbytes=None, cons=()):
         if isinstance(got, tuple):
             return 'from_lines {}: {}'.format(got[0], got[1:])
-        if len(got) != self.size:
-            return 'from_lines builds {} bytes, the region has {}'.format(
-                len(got), self.size)
+        size = self.size if nbytes is None else nbytes
+        if len(got) != size:
+            return 'from_lines builds {} bytes, the {} has {}'.format(
+                len(got), 'region' if nbytes is None else 'text', size)
         for i, (x, y) in enumerate(zip(got, self.mem)):
             xb = x if isinstance(x, BV) else BV.const(x, 8)
             for k in range(8):
                 if (self._rel(i), k) in skip:
                     continue
-                if xb.cell(k) != y.cell(k):
+                if xb.cell(k) != y.cell(k) and not (
+                        cons and _equal_under(xb.cell(k), y.cell(k), cons)):
                     return ('byte {} bit {} is read as {} instead of the '
                             'bit that was written'.format(
                                 i, k, _bits(BV([xb.cell(k)]))))
@@ -257,6 +321,69 @@ class SectionEval:
         if self.sec == 'music':
             return i % 4
         return i
+
+
+def _single_cell(v):
+    """the non-constant cells of a tested bit vector, none of whose cells is
+    the constant 1: the test `v != 0` is then `OR(cells) == 1`; None when the
+    value is not a bit vector of known cells"""
+    if not isinstance(v, BV):
+        return None
+    cells = [v.cell(k) for k in range(max(v.width, 1))]
+    if any(c is None for c in cells):
+        return None
+    if any(c.is_const() and c.const() == 1 for c in cells):
+        return None
+    live = tuple(c for c in cells if not c.is_const())
+    return live or None
+
+
+def constraints_of(conds):
+    """path conditions of cx.explore -> [(cells, 0/1)] or None when one of
+    them is not a truth test on a bit vector"""
+    out = []
+    for (desc, truth) in conds:
+        cells = _single_cell(getattr(desc, 'obj', None))
+        if cells is None:
+            return None
+        out.append((cells, 1 if truth else 0))
+    return out
+
+
+def _equal_under(a, b, cons):
+    """a == b for every assignment of the source bits that satisfies the
+    constraints [(cells, 0/1)] (OR of the cells == the value) mentioning
+    them"""
+    import itertools
+    if a is None or b is None:
+        return False
+    vs = set(a.vars) | set(b.vars)
+    rel = [(cs, t) for (cs, t) in cons
+           if any(set(c.vars) & vs for c in cs)]
+    allv = sorted(vs | {x for (cs, _t) in rel for c in cs for x in c.vars},
+                  key=repr)
+    if len(allv) > 14:
+        return False
+
+    def val(cell, env):
+        idx = 0
+        for j, x in enumerate(cell.vars):
+            if env[x]:
+                idx |= 1 << j
+        return (cell.table >> idx) & 1
+    for bits in itertools.product((0, 1), repeat=len(allv)):
+        env = dict(zip(allv, bits))
+        if all((1 if any(val(c, env) for c in cs) else 0) == t
+               for (cs, t) in rel):
+            if val(a, env) != val(b, env):
+                return False
+    return True
+
+
+def describe_constraints(cons):
+    return ', '.join('{} {} 0'.format(
+        '|'.join(repr(c) for c in cs), '!=' if t else '==')
+        for (cs, t) in cons) or 'always'
 
 
 def evaluate(ctx, sec, size):
